@@ -131,8 +131,9 @@ class Lab:
                 return self.measure_by_path(it_holder[0], f, self.vfs.abs(path_of_tokens(toks)))
             if self.measured is not None:
                 return list(self.measured)
-            m1 = Sym("measurement", unit_name="f", value=40, start=Sym("loc", line=1, column=1), end=Sym("loc", line=41, column=1))
-            m2 = Sym("measurement", unit_name="g", value=7, start=Sym("loc", line=50, column=1), end=Sym("loc", line=57, column=1))
+            from .evalsite import measurement
+            m1 = measurement(40, "f", self.prj, (1, 1), (41, 1))
+            m2 = measurement(7, "g", self.prj, (50, 1), (57, 1))
             return [m1, m2]
 
         def hook(it, kind, f, args, kwargs, node, cur):
@@ -360,8 +361,8 @@ def checksum_eval(prj: Project):
 def pipelines(prj: Project):
     """the same file (invalid UTF-8) through scan (scan_path) and through check (check_command): what lex and scan_file are
     handed and, for check, what CheckResult.add receives when the measuring stub returns lengths 31, 7, 64, 30, 31"""
-    ms = [Sym("measurement", unit_name=f"f{i}", value=v, start=Sym("loc", line=10 * i + 1, column=1), end=Sym("loc", line=10 * i + 9, column=1))
-          for i, v in enumerate((31, 7, 64, 30, 31))]
+    from .evalsite import measurement
+    ms = [measurement(v, f"f{i}", prj, (10 * i + 1, 1), (10 * i + 9, 1)) for i, v in enumerate((31, 7, 64, 30, 31))]
     tree = {"/w": (["proj"], []), "/w/proj": ([], ["a.py"])}
     out = {}
     for name, q, args in (("scan", "codelimit.common.Scanner:scan_path", [PathV(ROOT)]),
